@@ -35,6 +35,7 @@ ASSUMPTIONS = ["pvm/ref/inet.py implements RFC 1071 and the pseudo-headers",
                "truncated packets quoted inside ICMP errors"]
 REQUIRED = ["built", "fields_compared", "repacked", "ipv4_csums", "l4_csums",
             "icmp_csums", "odd_payloads", "even_payloads", "corpus_roundtrips",
+            "ip_payloads_shorter_than_their_protocol_header",
             "earlier_packets_rechecked",
             "v6_csums"]
 TIMEOUT = {"quick": 900, "thorough": 7200}
@@ -196,6 +197,11 @@ def build (kind, rng):
     set_l3(0x0800, ip4(1, ic))
   elif kind == "ip_raw":
     ipr = ip4(rng.choice([89, 50, 132, 253, 255]), payload)
+    if rng.random() < 0.3:
+      # the number of a protocol the library has a parser for, over a payload
+      # too short to hold that protocol's header: it stays the bytes it is
+      proto, n = rng.choice([(1, 4), (2, 8), (6, 20), (17, 8), (47, 4)])
+      ipr = ip4(proto, payload[:rng.randrange(0, n)])
     if rng.random() < 0.4:
       # a fragment (any flags, the whole range of offsets)
       ipr.flags = rng.randrange(8)
@@ -510,6 +516,13 @@ def run_built (case, rep):
     fire("%s: pack raises %s in %s" % (kind, type(e).__name__, tb[-1].name),
          traceback.format_exc()[-500:]); return
   rep.count("built")
+  if kind == "ip_raw":
+    try:
+      if [x for x in chain(p)[0] if type(x).__name__ == "ipv4"][0].protocol \
+         in (1, 2, 6, 17, 47):
+        rep.count("ip_payloads_shorter_than_their_protocol_header")
+    except Exception:
+      pass
   for (tn, before), x in zip(asked, chain(p)[0]):
     after = layer_fields(x)
     for k, v in before.items():
